@@ -314,6 +314,9 @@ func (g *G) mapObjectPayload(meth *m.Method, hasBodyVerb bool) {
 					ok = false
 				}
 			}
+			if ok && g.p.Runtime && g.avoid("C02-body-fields-client-sends-whole-payload") {
+				ok = false
+			}
 			if ok {
 				h.Body = &m.Body{Mode: "fields", Fields: bodyFields}
 				g.feat("body-fields")
